@@ -1,6 +1,7 @@
 package props
 
 import (
+	"astverif/extrarules"
 	"astverif/muxstate"
 	"astverif/tables"
 )
@@ -23,5 +24,8 @@ func c05(c *Ctx) {
 	muxstate.CCSource(c.P, r)
 	muxstate.CounterWidths(c.P, r, map[string]int64{"cc": 15, "version": 31}, map[string]int{"cc": 3, "version": 2})
 	tables.WrapCounter(c.P, r)
+	extrarules.IncOnlyForPayloadPackets(c.P, r)
+	// a PID handed out twice silently replaces a stream's context and restarts its counter
+	muxstate.AutoPID(c.P, r, muxstate.RuleAutoPID)
 	muxstate.IncSites(c.P, r)
 }
